@@ -86,15 +86,16 @@ def tv(chk, binary, tag, n, idx_deps=()):
     for d in idx_deps:
         cmd += ["--idx", d]
     rc, out = lib.sh(cmd, timeout=1800)
-    m = re.search(r"TV functions=(\d+) evaluations=(\d+) failures=(\d+)(.*)", out)
+    m = re.search(r"TV functions=(\d+) evaluations=(\d+)(?: nontrivial=(\d+))? failures=(\d+)(.*)", out)
     fails = [l for l in out.split("\n") if l.startswith("TVFAIL")]
-    ok = rc == 0 and m is not None and int(m.group(3)) == 0
+    ok = rc == 0 and m is not None and int(m.group(4)) == 0
     chk.oblige("tv:%s: extracted trees = real instantiations, bitwise" % tag, "translation-validation", ok,
                None if ok else (fails[:5] or out[-500:]))
     if m:
-        chk.count(int(m.group(2)), int(m.group(2)))
+        chk.count(int(m.group(2)), int(m.group(3) or 0))
         chk.extra.setdefault("tv", {})[tag] = {"functions": int(m.group(1)), "evaluations": int(m.group(2)),
-                                               "per_type": dict(kv.split("=") for kv in m.group(4).split())}
+                                               "inputs_with_not_all_components_equal": int(m.group(3) or 0),
+                                               "per_type": dict(kv.split("=") for kv in m.group(5).split())}
     for l in fails[:20]:
         mm = re.match(r"TVFAIL (\S+) (\S+) :: (.*?) :: in=(.*)", l)
         if mm:
@@ -163,19 +164,32 @@ def lean_search(chk, props_module, theorem, imports, opens, trials=120, binary=N
     params, stmt = pt
     import zlib
     rng = random.Random(chk.seed * 7919 + zlib.crc32(theorem.encode()) % 100000)
+    state = {"pz": 0.0, "affine": False}
     def val(ty):
         ty = ty.replace("α", "").strip()
         def num():
+            if rng.random() < state["pz"]:
+                return "(0 : Rat)"
             k = rng.choice([0, 1, -1, 2, -2, 3, 5, -7, 1, 2, 3])
             return "(%d : Rat)" % k if rng.random() < 0.8 else "((%d : Rat) / 2)" % k
         if ty == "":
             return num()
         if ty in ARITY:
             n = ARITY[ty].count("%s")
-            return ARITY[ty] % tuple(num() for _ in range(n))
+            vals = [num() for _ in range(n)]
+            if state["affine"] and ty in ("M33", "M44"):
+                # last column (0,…,0,k): takes the affine fast paths / zero-skipping branches
+                d = 3 if ty == "M33" else 4
+                for r in range(d - 1):
+                    vals[r * d + d - 1] = "(0 : Rat)"
+                vals[d * d - 1] = rng.choice(["(1 : Rat)", "(2 : Rat)", "(-3 : Rat)", "((1 : Rat) / 2)"])
+            return ARITY[ty] % tuple(vals)
         return None
     cases = []
-    for _ in range(trials):
+    for t in range(trials):
+        # structured generators: dense, sparse, very sparse, affine-pattern matrices
+        state["pz"] = [0.0, 0.0, 0.5, 0.8][t % 4]
+        state["affine"] = (t % 5 == 4)
         vs = [val(ty) for (_, ty) in params]
         if any(v is None for v in vs):
             return None
@@ -194,7 +208,8 @@ def lean_search(chk, props_module, theorem, imports, opens, trials=120, binary=N
         return None
     idxs = sorted(i for i, ok in res.items() if not ok)
     if not idxs:
-        return None
+        # true in exact arithmetic: try the float-level executable form (bit patterns at Float)
+        return lean_search_float(chk, params, stmt, theorem, imports, opens, binary, idx_deps)
     vs = cases[idxs[0]]
     real = None
     fn = re.search(r"Gen\.([A-Za-z0-9_.]+)", stmt)
@@ -339,3 +354,68 @@ def lean_tv(chk, binary, tag, index, n=4, idx_deps=()):
         chk.fail("lean-tv:" + tag, "lean-tv:%s" % fn, "emitted Lean definition of %s evaluates differently from the extracted tree (emitter bug)" % fn,
                  {"function": fn, "inputs": ins, "tree_at_Frac": exp, "lean_at_Rat": g, "lean_output_tail": lout[-600:] if g is None else None}, True)
     return ok
+
+
+def lean_search_float(chk, params, stmt, theorem, imports, opens, binary=None, idx_deps=(), trials=60):
+    """For an equation `Gen.F args = rhs` over plain slots: evaluate both sides at Float and compare bit
+    patterns per slot.  Finds inputs on which a rewrite that is an identity in exact arithmetic
+    (x/s -> x*(1/s), reassociation) changes the rounded result.  Returns a replay dict or None."""
+    m = re.match(r"\s*(Gen\.[A-Za-z0-9_.]+)(.*?)=(.*)$", stmt, re.S)
+    if not m or "↔" in stmt:
+        return None
+    fn = m.group(1)[4:]
+    out_shape = None
+    for f in os.listdir(GEN):
+        if f.startswith("index_") and f.endswith(".txt"):
+            for l in open(os.path.join(GEN, f)):
+                if l.startswith("FN %s |" % fn):
+                    mm = re.search(r"outs=([^|]*)", l)
+                    out_shape = mm.group(1).strip() if mm else None
+    if not out_shape or "," in out_shape or out_shape in ("B", "I", "S"):
+        return None
+    import zlib
+    rng = random.Random(chk.seed * 104729 + zlib.crc32(theorem.encode()) % 100000)
+    specials = ["0.1", "3.0", "7.0", "0.3", "1e-320", "4.9e-324", "1e308", "-0.7", "1.1", "49.0", "1e-5", "123456.789", "-3.0", "0.0"]
+    def val(ty):
+        ty = ty.replace("α", "").strip()
+        num = lambda: "(%s : Float)" % rng.choice(specials)
+        if ty == "":
+            return num()
+        if ty in ARITY:
+            return ARITY[ty] % tuple(num() for _ in range(ARITY[ty].count("%s")))
+        return None
+    names = [n for (n, _) in params]
+    tys = [("Float" if ty.strip() == "α" else ty.replace("α", "Float")) for (_, ty) in params]
+    leaves = ["v"] if out_shape == "-" else ["v.%s" % f for f in LEAVES.get(out_shape, [])]
+    if not leaves:
+        return None
+    oty = "Float" if out_shape == "-" else "%s Float" % out_shape
+    lines = ["import %s" % i for i in imports] + ["open %s" % o for o in opens]
+    lines.append("def bitsOf (v : %s) : List UInt64 := [%s]" % (oty, ", ".join("(%s).toBits" % l for l in leaves)))
+    lhs, rhs = (m.group(1) + m.group(2)).strip(), m.group(3).strip()
+    binder = " ".join("(%s : %s)" % (n, t) for n, t in zip(names, tys))
+    lines.append("def lhsBits %s : List UInt64 := bitsOf (%s)" % (binder, lhs))
+    lines.append("def rhsBits %s : List UInt64 := bitsOf (%s)" % (binder, rhs))
+    cases = []
+    for i in range(trials):
+        vs = [val(ty) for (_, ty) in params]
+        if any(v is None for v in vs):
+            return None
+        cases.append(vs)
+        a = " ".join("(%s)" % v for v in vs)
+        lines.append('#eval IO.println s!"FCASE %d {lhsBits %s == rhsBits %s} {lhsBits %s} {rhsBits %s}"' % (i, a, a, a, a))
+    rc, out = lib.lean_run_file("\n".join(lines) + "\n", timeout=600, name="searchf")
+    for mm in re.finditer(r"FCASE (\d+) false (\[.*?\]) (\[.*?\])", out):
+        vs = cases[int(mm.group(1))]
+        nums = re.findall(r"\(([-0-9.e]+) : Float\)", " ".join(vs))
+        real = None
+        if binary:
+            cmd = [binary, "real", fn] + nums
+            for d in idx_deps:
+                cmd += ["--idx", d]
+            real = (lib.sh(cmd, timeout=120)[1].strip().split("\n") or [None])[-1]
+        return {"key": "theorem:" + theorem, "theorem_statement": " ".join(stmt.split()), "failing_input": dict(zip(names, vs)),
+                "evaluated_at": "Float (IEEE double), bit patterns per slot, with the regenerated Gen definitions",
+                "model_bits": mm.group(2), "spec_bits": mm.group(3), "real_code_at_double": real,
+                "note": "the statement holds in exact arithmetic; the rounded results differ"}
+    return None
